@@ -43,7 +43,11 @@ def closure_paths(e, st, clo, argvals):
     e.queries += sub.queries
     e.solver_s += sub.solver_s
     out = []
+    has_return = any(p.status == "return" for p in paths)
     for p in paths:
+        if p.status == "panic" and has_return and "overflow" in p.note:
+            # arithmetic-overflow panic of a checked operation inside the closure: outside the claim (sizes and counts < 2^64)
+            continue
         if p.status != "return":
             raise Inconclusive("closure %s: path %s %s" % (span, p.status, p.note[:100]))
         out.append((p.pc[len(st.pc):], p.result, p.events))
@@ -175,6 +179,9 @@ def s_drain(e, st, callee, args, dty):
     r = args[0]
     l = as_list(e, st, r)
     rng = deref_val(e, st, args[1])
+    if l is not None and isinstance(r, Ref) and "RangeFull" in repr(rng) + callee:
+        # drain(..): everything is moved out
+        return ("multi", [(None, ("store", r, ListV((), l.ty), ListV(l.items, "iter")))])
     if l is None or not isinstance(r, Ref) or not isinstance(rng, Agg):
         return NotImplemented
     a, b = rng.fields.get(0), rng.fields.get(1)
@@ -223,6 +230,22 @@ def s_peek(e, st, callee, args, dty):
     if not l.items:
         return EnumV("Option", "None", 0, {})
     return EnumV("Option", "Some", 1, {0: Ref(r.cell, r.path + (("elem", 0),), False)})
+
+
+def s_iter_skip_take(e, st, callee, args, dty):
+    """Iterator::skip(n) / take(n) on a concrete-length list; a symbolic n forks over 0..len"""
+    l = as_list(e, st, args[0])
+    n = args[1]
+    if l is None or not isinstance(n, Int):
+        return NotImplemented
+    skip = meth_name(callee) == "skip"
+    cut = (lambda k: l.items[k:]) if skip else (lambda k: l.items[:k])
+    nv = z3.simplify(n.t)
+    if z3.is_bv_value(nv):
+        return ListV(cut(min(nv.as_long(), len(l.items))), "iter")
+    alts = [(n.t == z3.BitVecVal(k, n.t.size()), ListV(cut(k), "iter")) for k in range(len(l.items))]
+    alts.append((z3.UGE(n.t, z3.BitVecVal(len(l.items), n.t.size())), ListV(cut(len(l.items)), "iter")))
+    return alts
 
 
 def s_iter_count(e, st, callee, args, dty):
@@ -286,6 +309,7 @@ LIST = {
     r"^<.* as (std::iter::)?Iterator>::peekable$": s_peekable,
     r"^(std::iter::)?Peekable::peek$": s_peek,
     r"^<.* as (std::iter::)?Iterator>::count$": s_iter_count,
+    r"^<.* as (std::iter::)?Iterator>::(skip|take)$": s_iter_skip_take,
     r"^<.* as (std::iter::)?Iterator>::sum$": s_iter_sum_lens,
     r"^(std::vec::|alloc::vec::)?Vec::retain$": s_retain,
     r"^<.* as (std::iter::)?Iterator>::partition$": s_iter_partition,
